@@ -91,13 +91,52 @@ class _DatetimeShim(object):
         return _dt.datetime(*a, **k)
 
 
+class _TimeShim(object):
+    """Stands for the module `time` should the repository ever read it."""
+
+    def __init__(self, clock):
+        self._clock = clock
+
+    def time(self):
+        self._clock.now()
+        return 946684800.0 + self._clock.t / 1e6
+
+    def monotonic(self):
+        self._clock.now()
+        return self._clock.t / 1e6
+
+    perf_counter = monotonic
+    process_time = monotonic
+
+    def sleep(self, seconds):
+        self._clock.advance(seconds)
+
+    def __getattr__(self, name):
+        import time as _t
+        return getattr(_t, name)
+
+
 def install_clock(clock):
-    import matchingproblems.solver.solver as solver_mod
-    old = solver_mod.__dict__.get('datetime')
-    solver_mod.datetime = _DatetimeShim(clock)
+    """Every module of the solver package that holds a reference to the
+    datetime module/class or to the time module gets the simulated one (today
+    only matchingproblems.solver.solver reads a clock)."""
+    import time as _time
+    import matchingproblems.solver.solver  # noqa: F401
+    saved = []
+    for name, mod in list(sys.modules.items()):
+        if mod is None or not name.startswith('matchingproblems.solver'):
+            continue
+        for attr, val in list(vars(mod).items()):
+            if val is _dt or val is _dt.datetime:
+                saved.append((mod, attr, val))
+                setattr(mod, attr, _DatetimeShim(clock))
+            elif val is _time:
+                saved.append((mod, attr, val))
+                setattr(mod, attr, _TimeShim(clock))
 
     def undo():
-        solver_mod.datetime = old
+        for mod, attr, val in saved:
+            setattr(mod, attr, val)
     return undo
 
 
@@ -245,7 +284,18 @@ class SimBackend(object):
         if self.policy == 'real' and fault is None:
             return self._real(solver, lp, rec, kw)
 
-        ids, pairs, n1 = self.pairs_provider(lp)
+        ids, pairs, n1, trusted = self.pairs_provider(lp)
+        sets_ok = bool(ids) and trusted
+        if not sets_ok:
+            rec['projection_unavailable'] = True
+        if not ids:
+            # the Pair variables could not be identified (refactored names):
+            # enumerate over every 0/1 variable instead, exact but slower, and
+            # offer no FEAS/OPT sets to the oracles for this round
+            ids = [id(v) for v in lp.variables()
+                   if v.cat == 'Integer' and v.lowBound == 0 and
+                   v.upBound == 1]
+            pairs = [(0, 0)] * len(ids)
         try:
             C, sols, zb = milp_stub.solve_all(lp, ids, self.rng)
         except milp_stub.StubUnsupported as e:
@@ -264,7 +314,10 @@ class SimBackend(object):
             rec['proj_missing'] = len(C.proj_missing)
             pairs = [p for k, p in enumerate(pairs)
                      if k not in set(C.proj_missing)]
-        feas = [self._to_M(p, pairs, n1) for p, _, _ in sols]
+        if sets_ok:
+            feas = [self._to_M(p, pairs, n1) for p, _, _ in sols]
+        else:
+            feas = [tuple(p) for p, _, _ in sols]
         opt_i = [k for k, (_, z, _) in enumerate(sols) if z <= zb + 1e-9]
         rec['n_feas'] = len(sols)
         rec['n_opt'] = len(opt_i)
@@ -273,7 +326,7 @@ class SimBackend(object):
             repr(C.canonical()).encode()).hexdigest()[:16]
         rec['nvars'] = len(C.vs)
         rec['ncons'] = len(C.cons)
-        if self.keep_sets:
+        if self.keep_sets and sets_ok:
             rec['feas'] = feas
             rec['opt'] = [feas[k] for k in opt_i]
         genuine = 'Optimal' if sols else 'Infeasible'
@@ -323,7 +376,7 @@ class SimBackend(object):
         d = self._duration(tl)
         if kind == 'byzantine':
             M = self.byz_provider()
-            ids, pairs, n1 = self.pairs_provider(lp)
+            ids, pairs, n1, _t = self.pairs_provider(lp)
             want = set((i + 1, p) for i, p in enumerate(M) if p)
             vals = {}
             for v in C.vs:
@@ -393,8 +446,8 @@ class SimBackend(object):
         st = _REAL_ACTUAL_SOLVE(solver, lp, **kw)
         rec['status'] = pulp.LpStatus[lp.status]
         rec['real'] = True
-        ids, pairs, n1 = self.pairs_provider(lp)
-        if lp.status == pulp.LpStatusOptimal:
+        ids, pairs, n1, trusted = self.pairs_provider(lp)
+        if lp.status == pulp.LpStatusOptimal and trusted:
             idset = dict((i, k) for k, i in enumerate(ids))
             proj = [0] * len(ids)
             for v in lp.variables():
@@ -418,7 +471,7 @@ class SimBackend(object):
             _REAL_ACTUAL_SOLVE(solver, lp, **kw)
             real_status = lp.status
             zreal = pulp.value(lp.objective) if real_status == 1 else None
-            ids, _, _ = self.pairs_provider(lp)
+            ids, _, _, trusted = self.pairs_provider(lp)
             idset = dict((i, k) for k, i in enumerate(ids))
             proj = {}
             for v in lp.variables():
@@ -434,8 +487,8 @@ class SimBackend(object):
             bad = 'status real=%s stub=Optimal' % pulp.LpStatus[real_status]
         elif abs((zreal or 0) - (zstub or 0)) > 1e-6:
             bad = 'objective real=%r stub=%r' % (zreal, zstub)
-        else:
-            allids, allpairs, _ = self.pairs_provider(lp)
+        elif trusted and ids:
+            allids, allpairs, _, _t = self.pairs_provider(lp)
             present = [k for k in range(len(allids)) if k not in
                        set(C.proj_missing)]
             M = self._to_M([proj.get(k, 0) for k in present], pairs, n1)
